@@ -29,6 +29,16 @@ OUT="$ROOT/.work/out-$ID-$$.log"
 RC=$?
 cat "$OUT"
 [ -n "$RACE" ] && rm -f "$RL".*
+if [ $RC -eq 1 ] && ! grep -q "^VIOLATION property=" "$OUT" && grep -q "BADGER-ASSERT-FAILED" "$OUT"; then
+  # a failed internal assertion of badger (log.Fatalf => exit 1) on valid API usage
+  mkdir -p "$ROOT/replay/$ID"
+  CR="$ROOT/replay/$ID/assert-seed${VERIF_SEED:-1}.log"
+  cp "$OUT" "$CR"
+  echo "VIOLATION property=$ID replay=$CR"
+  echo "  signature: $ID|process-crash-in-badger"
+  rm -f "$OUT"
+  exit 1
+fi
 if [ $RC -ne 0 ] && [ $RC -ne 1 ]; then
   # The process died. A panic / fatal error raised inside badger code while the property's
   # workload ran on valid API usage is a violation; anything else is a harness failure.
